@@ -1,7 +1,7 @@
 """Per-property configuration of the driver: level, phases, vacuity guards, rule text, assumptions."""
 
 
-def std_phases(nshards=None, mem_gib=12, timeout_q=900, timeout_t=7200):
+def std_phases(nshards=None, mem_gib=12, timeout_q=1800, timeout_t=14400):
     def f(tier):
         ph = {"name": "main", "profile": "checked", "mem_gib": mem_gib,
               "timeout_s": timeout_q if tier == "quick" else timeout_t}
@@ -15,12 +15,12 @@ ASAN_ENV = {"ASAN_OPTIONS": "detect_leaks=1:halt_on_error=1:abort_on_error=1:all
             "ASAN_SYMBOLIZER_PATH": "/usr/bin/llvm-symbolizer-14"}
 
 
-def asan_phase(timeout=3600):
+def asan_phase(timeout=10800):
     # quick-sized workload under AddressSanitizer + LeakSanitizer, zstd's C code instrumented too; no address-space limit
     return {"name": "asan", "profile": "asan", "sub": "asan", "mem_gib": None, "timeout_s": timeout, "env": ASAN_ENV}
 
 
-def miri_phase(timeout=3600):
+def miri_phase(timeout=14400):
     # tiny codec-free (Compression::None) subset under the Miri interpreter
     return {"name": "miri", "profile": "miri", "sub": "miri", "mem_gib": None, "timeout_s": timeout, "max_restarts": 3}
 
@@ -48,7 +48,7 @@ def reg(pid, level, rule, require=None, phases=None, assumptions=None, exhaustiv
 
 def with_layers(*layers):
     def f(tier):
-        ph = [{"name": "main", "profile": "checked", "mem_gib": 12, "timeout_s": 900 if tier == "quick" else 7200}]
+        ph = [{"name": "main", "profile": "checked", "mem_gib": 12, "timeout_s": 1800 if tier == "quick" else 14400}]
         if tier == "thorough":
             for l in layers:
                 ph.append(asan_phase() if l == "asan" else miri_phase())
@@ -90,10 +90,10 @@ reg("C09", "exploration",
 
 
 def c08_phases(tier):
-    ph = [{"name": "checked", "profile": "checked", "mem_gib": 12, "timeout_s": 900 if tier == "quick" else 7200}]
+    ph = [{"name": "checked", "profile": "checked", "mem_gib": 12, "timeout_s": 1800 if tier == "quick" else 14400}]
     if tier == "thorough":
         # what users of a stock release build get (arithmetic wraps silently), then the sanitizer layers
-        ph.append({"name": "plain", "profile": "plain", "sub": "plain", "mem_gib": 12, "timeout_s": 7200})
+        ph.append({"name": "plain", "profile": "plain", "sub": "plain", "mem_gib": 12, "timeout_s": 14400})
         ph.append(asan_phase())
         ph.append(miri_phase())
     return ph
@@ -229,7 +229,7 @@ def c02_python(cfg, tier, seed, work, agg):
 
 
 def c02_phases(tier):
-    return [{"name": "main", "profile": "checked", "mem_gib": 12, "timeout_s": 900 if tier == "quick" else 7200},
+    return [{"name": "main", "profile": "checked", "mem_gib": 12, "timeout_s": 1800 if tier == "quick" else 14400},
             {"name": "python-reader", "kind": "python", "fn": c02_python}]
 
 
@@ -413,7 +413,7 @@ def c14_python(cfg, tier, seed, work, agg):
 
 
 def c14_phases(tier):
-    ph = [{"name": "main", "profile": "checked", "mem_gib": 12, "timeout_s": 900 if tier == "quick" else 7200}]
+    ph = [{"name": "main", "profile": "checked", "mem_gib": 12, "timeout_s": 1800 if tier == "quick" else 14400}]
     if tier == "thorough":
         ph.append(asan_phase())
     ph.append({"name": "python-gzip", "kind": "python", "fn": c14_python})
@@ -463,7 +463,7 @@ def c16_xproc_compare(cfg, tier, seed, work, agg):
 
 
 def c16_phases(tier):
-    return [{"name": "main", "profile": "checked", "mem_gib": 12, "timeout_s": 900 if tier == "quick" else 7200},
+    return [{"name": "main", "profile": "checked", "mem_gib": 12, "timeout_s": 1800 if tier == "quick" else 14400},
             {"name": "xproc", "profile": "checked", "sub": "xproc", "nshards": 6, "mem_gib": 12, "timeout_s": 1800},
             {"name": "xproc-compare", "kind": "python", "fn": c16_xproc_compare}]
 
